@@ -52,19 +52,31 @@ def hash_relational(cname, params):
     """two executions of this __cinit__ agreeing on the dynamic class and the identity parameters
     compute the same hash: obtained by renaming every other input of the symbolic hash term"""
     allowed = HASH_PARAMS[cname]
+    own_fields = CINIT[cname][1]        # slots this very __cinit__ assigns (empty: the base class __cinit__ does)
 
     def post(o, n, r):
         h = n.self._hash.t
         subs, eqs = [], []
+        other = {}
         for p in params:
-            if p not in allowed:
-                subs.append((getattr(o, p).t, FreshConst(V, p + "_other_run")))
+            other[p] = FreshConst(V, p + "_other_run")
+            subs.append((getattr(o, p).t, other[p]))
         ident = o.self.ty.ident_term if hasattr(o.self.ty, "ident_term") else None
         if ident is not None:
             ident2 = FreshConst(V, "self_other_run")
             subs.append((ident, ident2))
             eqs.append(type_of(ident) == type_of(ident2))
-        h2 = z3.substitute(h, *subs) if subs else h
+        h2 = z3.substitute(h, *subs)
+        if own_fields:
+            # same STRUCTURE (equal identity slots after construction) => same hash, however the slots were
+            # obtained from the arguments (e.g. kwargs given as a dict or as a tuple of pairs)
+            for f in own_fields:
+                if f != "_manager":
+                    ft = n.self.fields[f].t
+                    eqs.append(ft == z3.substitute(ft, *subs))
+        else:
+            for p in allowed:
+                eqs.append(getattr(o, p).t == other[p])
         return z3.Implies(z3.And(*eqs) if eqs else z3.BoolVal(True), h == h2)
     return post
 
@@ -115,3 +127,19 @@ REDUCES = [reduce_contract("MutableRef", ("_owner", "_key", "_manager")), reduce
            reduce_contract("BuiltinRef", ("_arg", "_op", "_params")),
            reduce_contract("CallRef", ("_func", "_args", "_kwargs"))]
 CONTRACTS = CINITS + REDUCES + [HASH]
+
+# ---- classes pickled by the default protocol (trusted): they must not grow custom pickle hooks unnoticed
+from pyvc.writeset import ClassHooksEngine      # noqa: E402
+_HOOKS = ("__reduce__", "__reduce_ex__", "__getstate__", "__setstate__", "__getnewargs__", "__getnewargs_ex__", "__copy__",
+          "__deepcopy__")
+
+
+def _hooks(module, anchor):
+    return Contract(module=module, qualname=anchor, params={}, min_obligations=len(_HOOKS),
+                    extra=dict(engine=ClassHooksEngine, variant="default-pickling", forbidden_methods=_HOOKS),
+                    note="the class is pickled by Python's default protocol (trusted); a custom hook would need its own contract")
+
+
+VARIANTS = [_hooks(M, "RefCount.append"), _hooks("xdeps/tasks.py", "Manager.__init__"),
+            _hooks("xdeps/tasks.py", "ExprTask.__init__"), _hooks("xdeps/tasks.py", "FunctionTask.__init__"),
+            _hooks("xdeps/tasks.py", "LinearKnob.__init__")]
